@@ -3,7 +3,7 @@ import itertools
 import json
 import os
 
-from common import Check, pack, VERIF
+from common import Check, pack, VERIF, HARNESS_FAULT
 from sched_util import (Case, Task, KINDS, run_impl, ser_observed, compare_with_model, model_dump,
                         closure, analyse_graph, needed_sets)
 
@@ -377,6 +377,12 @@ def run_cases(chk, cases, oracles, needs_ok_load=True, nontrivial=None):
         if obs.crash is not None and not obs.deadlock:
             if obs.crash.startswith("Timeout"):
                 timeouts += 1
+            if obs.crash.startswith(HARNESS_FAULT):
+                # the harness could not attach to the (rewritten) internals: a broken tie, not a failing input
+                chk.violation("tie-broken", "the correspondence harness no longer fits the implementation's internals: %s" % obs.crash[:300],
+                              {"theorem_or_tie": "correspondence harness (harness/sched_util.py run_impl) vs executor.py / sigchld.py internals", "detail": obs.crash},
+                              found_input=False)
+                break
             chk.violation("impl-violation", "implementation raised an internal error on %s: %s" % (c.graph_text(), obs.crash[:200]),
                           {"input": {"case": c.to_json()}, "impl_observation": obs.crash, "oracle_verdict": "internal error"},
                           match_key={"graph": c.graph_text()}, size=len(c.tasks))
